@@ -3,7 +3,7 @@ import json
 from fractions import Fraction
 import numpy as np
 from harness import votelib as V
-from harness.common import pmap, lean_query, guard, fr, safe_judge
+from harness.common import pmap, lean_query, guard, fr, safe_judge, persist, persist_rule
 from harness.c01 import chunks
 
 LEVEL = "proof"
@@ -23,8 +23,8 @@ def impl_batch(case):
             cop = V.make_rule("copeland", 0, "accept", zero)
             sc = cop.score(prof)
             res = {"copeland": [fr(V.fscore(x)) for x in sc], "copeland_winners": [int(x) for x in np.atleast_1d(cop.scf(prof))]}
-            cp = CompleteProfile.of(np.array(P, dtype=np.int64))
-            res["stv_first"] = int(SingleTransferableVote(tie_breaker="first", zero_indexed=zero).scf(cp))
+            cp = persist("stvP", np.array(P, dtype=np.int64), CompleteProfile.of)
+            res["stv_first"] = int(persist_rule(("stv", "first", zero), lambda: SingleTransferableVote(tie_breaker="first", zero_indexed=zero)).scf(cp))
             # random tie-breaker: record what np.random.choice was offered and what it returned
             runs = []
             orig = npr.choice
@@ -38,7 +38,7 @@ def impl_batch(case):
                 np.random.seed(s)
                 np.random.choice = rec
                 try:
-                    w = int(SingleTransferableVote(tie_breaker="random", zero_indexed=zero).scf(cp))
+                    w = int(persist_rule(("stv", "random", zero), lambda: SingleTransferableVote(tie_breaker="random", zero_indexed=zero)).scf(cp))
                 finally:
                     np.random.choice = orig
                 runs.append({"seed": s, "winner": w, "choices": log})
@@ -75,7 +75,7 @@ def judge(R, it, res, cop_ans, first_ans, rand_ans):
         R.corr_break("Copeland scores and winners equal the model's", ENTRY + " Copeland", {"P": P}, res["copeland"], cop_ans, cfg)
     # --- STV first
     want_first = V.stv_possible_winners(P, m, True)
-    if res["stv_first"] - fixer not in want_first:
+    if want_first is not None and res["stv_first"] - fixer not in want_first:
         R.violation("property_violation", "STV('first') = survivor of repeated elimination of the lowest-numbered alternative with fewest first places",
                     ENTRY + " STV.scf", {"P": P}, impl_output=res["stv_first"], oracle={"textbook": sorted(x + fixer for x in want_first)}, config=cfg)
         return
@@ -87,7 +87,7 @@ def judge(R, it, res, cop_ans, first_ans, rand_ans):
     for run, ans in zip(res["stv_random"], rand_ans):
         w = run["winner"] - fixer
         bad = None
-        if w not in legal:
+        if legal is not None and w not in legal:
             bad = "winner is not reachable by any legal elimination sequence"
         if maj and w != maj[0]:
             bad = "an alternative ranked first by a strict majority did not win"
@@ -155,6 +155,8 @@ def run(R):
     for t in range(cnt):
         m = R.rng.choice([1, 2, 3, 3, 4, 5, 6, 8])
         n = R.rng.choice([1, 2, 3, 4, 5, 6, 8, 12, 40, 65, 100, 129])
+        if t % 40 == 39:          # many alternatives and a large electorate
+            m, n = R.rng.choice([14, 25, 40]), R.rng.choice([50, 120])
         P = V.structured_profile(R.rng, n, m) if R.rng.random() < 0.5 else V.rand_profile(R.rng, n, m)
         items.append({"P": P, "m": m, "zero": R.rng.random() < 0.5, "seeds": [R.rng.randrange(10 ** 6) for _ in range(3)]})
     run_items(R, items)
